@@ -652,6 +652,13 @@ def c14_case(rng):
         pre = '%s = "q""r"; ' % lay.var()
     elif preknd < 0.40:
         pre = "%s = 5; " % lay.var()
+    elif preknd < 0.50:
+        # the fault stands behind the END of a comment that began on an earlier line: it is on the line it is written on
+        lay.features.add("fault-after-inline-comment")
+        lay.features.add("fault-behind-the-end-of-a-multi-line-comment")
+        lines += [indent + "/* c%d" % rng.randint(0, 99)] + [rng.choice([" * more", "", "   x = 1 + \"a\";"]) for _ in range(rng.randint(0, 2))]
+        indent = ""
+        pre = rng.choice([" */ ", "*/ ", "   end */ "])
     head = indent + pre
     fault_lines = []
     ffile = fpos = None
@@ -701,8 +708,13 @@ def c14_case(rng):
         else:
             lay.features.add("line-macro-at-end-of-line")
             lay.features.add("line-macro-through-define")
-            fault_lines = ["#define HERE__ __LINE__", head + "diag_log [", "HERE__", ", __FILE__];"]
-            expect = [("linefile", 2, None)]
+            if "fault-behind-the-end-of-a-multi-line-comment" in lay.features:
+                lines.insert(0, "#define HERE__ __LINE__")      # not inside the comment that ends on the fault's line
+                fault_lines = [head + "diag_log [", "HERE__", ", __FILE__];"]
+                expect = [("linefile", 1, None)]
+            else:
+                fault_lines = ["#define HERE__ __LINE__", head + "diag_log [", "HERE__", ", __FILE__];"]
+                expect = [("linefile", 2, None)]
         col_exact = False
     pos = len(lines)            # 0-based line index of the first fault line
     lines += fault_lines
